@@ -30,6 +30,22 @@ CHECKS.update({
  'C13': net('3/C13', 'Every constructor call (duplicates, complementary pairs, constants, root-assigned arguments, cache hits, pairwise and product encodings) with the clauses it emitted: the returned literal equals the formula in every model (eq/conj/disj), forces the cardinality constraint and excludes no satisfying argument assignment (amo/exo), and the request does not constrain existing variables.'),
  'C14': net('3/C14', 'Object variables over domains of 1-3 values: exactly one value literal true in every model, reported domain = values whose literal is not false, equality literal true exactly in the models where both variables take the same value, over assume/pop/next histories.'),
 })
+PLAN_NOTE = ('Trusted: TLC; the TLA+ predicates of Plan.tla (exact InfRat arithmetic); the hooks (clauses as given, literal '
+             'definitions, operator translations, guarded facts) and plan_driver\'s projection of the reported solution through '
+             'the public API (values, domains, atoms, flaws / resolvers via solver_listener, extract_timelines). Timeouts are '
+             'excluded and counted.')
+def plan(design, text, technique='TLC validation of every reported solution against Plan.tla (PlanTrace) on repository examples and TLC-generated problem families'):
+    return dict(cat='model_checking', design=design, text=text, note=PLAN_NOTE, technique=technique)
+CHECKS.update({
+ 'C01': plan('3/C01', 'Every solution reported on the repository examples and on generated timeline / causal / temporal families, in 2 (quick) or 8 (thorough) build configurations, is validated by TLC: no clause falsified or left unit, every guarded fact true, every defined literal agrees with its definition evaluated exactly on the reported values, every RIDDLE operator result equals the operator applied to its argument values.'),
+ 'C02': dict(cat='model_checking', design='3/C02', note=PLAN_NOTE,
+    text='Ground truth from complete decision procedures written in TLA+ and evaluated by TLC (ConstraintSat.tla: boolean enumeration x Fourier-Motzkin on seeded constraint programs; PlanGen.tla: exhaustive integer schedules for every small timeline problem) and from problems built around known solutions; the planner must not answer unsolvable on a solvable problem, and equivalent formulations (renaming, permutation, tautologies) must get the same verdict, in every configuration.',
+    technique='TLA+ decision procedures evaluated by TLC as ground truth, verdicts of the real solver compared (spec -> code)'),
+ 'C03': plan('3/C03', 'Flaws, resolvers and causal links observed through solver_listener; on every reported solution TLC checks that each plan atom has exactly one chosen resolver, activation / unification conditions hold on the reported values, sub-goals of active goals are in the plan, and no unified atom is reachable from its own target.'),
+ 'C04': plan('3/C04', 'State-variable problems enumerated by PlanGen.tla plus repository examples: on every reported solution no two active atoms assigned to one instance overlap, and the extracted timeline lists at most one / exactly the covering atoms per segment.'),
+ 'C05': plan('3/C05', 'Reusable-resource problems enumerated by PlanGen.tla plus repository examples: on every reported solution the exact sum of amounts at every start instant is within capacity and per-segment usage of the extracted timeline equals the sum over the covering atoms.'),
+ 'C06': plan('3/C06', 'The fact/goal x predicate-kind x direct/rule x time-pattern family plus all repository examples: every active interval atom satisfies origin <= start <= end <= horizon and duration = end - start >= 0, every active impulse atom origin <= at <= horizon, in exact arithmetic.'),
+})
 NOT_YET = {
 }
 
